@@ -61,6 +61,14 @@ def gen_misc(info):
     info["ch3_switch_mask"] = m
     out.append("def ch3SwitchMask : Nat := %d\n" % m)
     out.append("def ch3SwitchIsAnd : Bool := %s\n" % lbool(is_and))
+    # keyword defaults of the threshold repair (stage 2 of the time sanitising)
+    from pygac.reader import Reader
+    sig = inspect.signature(Reader.correct_times_thresh)
+    dflt = {k: v.default for k, v in sig.parameters.items() if v.default is not inspect.Parameter.empty}
+    info["correct_times_thresh_defaults"] = {k: repr(v) for k, v in dflt.items()}
+    for lname, key in (("s2MaxDiffHead", "max_diff_from_t0_head"), ("s2MinFrac", "min_frac_near_t0_head"),
+                       ("s2MaxDiffIdeal", "max_diff_from_ideal_t")):
+        out.append("def %s : Rat := %s\n" % (lname, lrat(Fraction(repr(dflt[key])))))
     out.append("end PygacModel.Generated\n")
     return "Misc.lean", "".join(out)
 
